@@ -922,6 +922,23 @@ impl Default for TypeModifier {
 }
 
 impl ObjectType {
+    /// Check if the object is a resource that the application binds
+    /// The other objects only live inside shader code
+    pub fn is_resource(&self) -> bool {
+        !matches!(
+            self,
+            ObjectType::Texture2DMips(_)
+                | ObjectType::Texture2DMipsSlice(_)
+                | ObjectType::Texture2DArrayMips(_)
+                | ObjectType::Texture2DArrayMipsSlice(_)
+                | ObjectType::Texture3DMips(_)
+                | ObjectType::Texture3DMipsSlice(_)
+                | ObjectType::TriangleStream(_)
+                | ObjectType::RayQuery(_)
+                | ObjectType::RayDesc
+        )
+    }
+
     pub fn get_register_type(&self) -> RegisterType {
         match self {
             ObjectType::Buffer(_)
